@@ -143,6 +143,40 @@ public:
     }
 };
 
+// RRTConnect with its two protected trees readable
+class PeekRRTConnect : public og::RRTConnect
+{
+public:
+    using og::RRTConnect::RRTConnect;
+    std::string dumpTree(bool start) const
+    {
+        std::vector<Motion *> ms;
+        const auto &t = start ? tStart_ : tGoal_;
+        if (t)
+            t->list(ms);
+        std::map<const Motion *, size_t> idx;
+        for (size_t i = 0; i < ms.size(); ++i)
+            idx[ms[i]] = i;
+        std::string s = std::string(start ? "treeS" : "treeG") + " n=" + std::to_string(ms.size());
+        auto bitsOf = [&](const ob::State *st) {
+            std::vector<double> r;
+            si_->getStateSpace()->copyToReals(r, st);
+            std::string o;
+            for (size_t i = 0; i < r.size(); ++i)
+                o += (i ? "," : "") + vp::bits(r[i]);
+            return o;
+        };
+        for (auto *m : ms)
+            s += " " + (m->parent ? std::to_string(idx.at(m->parent)) : std::string("-1")) + ":" + bitsOf(m->state) + ":" +
+                 bitsOf(m->root);
+        return s;
+    }
+    bool startTreeFlag() const
+    {
+        return startTree_;
+    }
+};
+
 // ------------------------------------------------------------------------------------------------ configuration
 struct Config
 {
@@ -262,7 +296,7 @@ static int runOnce(const Config &c)
         });
 
     auto si = std::make_shared<ob::SpaceInformation>(space);
-    auto vc = std::make_shared<vp::RecordingValidityChecker>(si, env, c.trace);
+    auto vc = std::make_shared<vp::RecordingValidityChecker>(si, env, true);
     si->setStateValidityChecker(vc);
     si->setStateValidityCheckingResolution(c.res);
     si->setup();
@@ -329,13 +363,23 @@ static int runOnce(const Config &c)
 
     ob::PlannerPtr planner;
     PeekRRT *peek = nullptr;
+    PeekRRTConnect *peekC = nullptr;
     if (lock)
     {
-        if (c.planner != "RRT")
-            throw vp::ParseError("lockstep is RRT only");
-        auto p = std::make_shared<PeekRRT>(si, c.hasInterm && c.interm);
-        peek = p.get();
-        planner = p;
+        if (c.planner == "RRT")
+        {
+            auto p = std::make_shared<PeekRRT>(si, c.hasInterm && c.interm);
+            peek = p.get();
+            planner = p;
+        }
+        else if (c.planner == "RRTConnect")
+        {
+            auto p = std::make_shared<PeekRRTConnect>(si, c.hasInterm && c.interm);
+            peekC = p.get();
+            planner = p;
+        }
+        else
+            throw vp::ParseError("lockstep is RRT / RRTConnect only");
     }
     else
         planner = makePlanner(c.planner, si, sis);
@@ -350,6 +394,11 @@ static int runOnce(const Config &c)
             peek->setRange(c.range);
         if (c.hasBias)
             peek->setGoalBias(c.bias);
+    }
+    else if (peekC)
+    {
+        if (c.hasRange)
+            peekC->setRange(c.range);
     }
     else
     {
@@ -370,6 +419,8 @@ static int runOnce(const Config &c)
         planner->setProblemDefinition(pdef);
         if (peek)
             peek->setNearestNeighbors<ompl::NearestNeighborsLinear>();  // clears, installs, calls setup()
+        else if (peekC)
+            peekC->setNearestNeighbors<ompl::NearestNeighborsLinear>();
         else
             planner->setup();
         {
@@ -420,6 +471,8 @@ static int runOnce(const Config &c)
         double r = 0;
         if (peek)
             r = peek->getRange();
+        else if (peekC)
+            r = peekC->getRange();
         else
         {
             std::string v;
@@ -506,6 +559,58 @@ static int runOnce(const Config &c)
         }
         si->freeState(tmp);
     }
+    // ---- discipline of the top solution (DESIGN 1.4): for every reported edge, the parameters of the queried-valid states
+    // that lie on the edge's curve (attributed by the metric: d(a,x) + d(x,b) == d(a,b), so checks made under another
+    // parent segment or in the other direction count) and the longest stretch between consecutive ones
+    if (!sols.empty())
+        if (auto *pg = dynamic_cast<og::PathGeometric *>(sols[0].path_.get()))
+        {
+            const auto &sts = pg->getStates();
+            std::vector<ob::State *> qs;
+            for (auto &q : log)
+                if (q.valid)
+                {
+                    ob::State *x = si->allocState();
+                    space->copyFromReals(x, q.reals);
+                    qs.push_back(x);
+                }
+            const double nedges = sts.size() > 1 ? (double)(sts.size() - 1) : 0.0;
+            if (nedges * (double)qs.size() > 4e7)
+                std::cout << "disc skipped\n";
+            else
+                for (size_t j = 0; j + 1 < sts.size(); ++j)
+                {
+                    const double d = si->distance(sts[j], sts[j + 1]);
+                    const double tol = 1e-12 * std::max(1.0, d);
+                    std::vector<double> ts;
+                    for (auto *x : qs)
+                    {
+                        const double da = si->distance(sts[j], x);
+                        if (da > d + tol)
+                            continue;
+                        const double db = si->distance(x, sts[j + 1]);
+                        if (da + db - d <= tol)
+                            ts.push_back(d > 0 ? da / d : 0.0);
+                    }
+                    std::sort(ts.begin(), ts.end());
+                    double prev = 0.0, g0 = 0.0, g1 = 0.0, best = -1.0;
+                    for (size_t k = 0; k <= ts.size(); ++k)
+                    {
+                        const double cur = k < ts.size() ? ts[k] : 1.0;
+                        if (cur - prev > best)
+                        {
+                            best = cur - prev;
+                            g0 = prev;
+                            g1 = cur;
+                        }
+                        prev = cur;
+                    }
+                    std::cout << "disc 0 " << j << " k=" << ts.size() << " gap=" << vp::bits(best * d) << " t0=" << vp::bits(g0)
+                              << " t1=" << vp::bits(g1) << " d=" << vp::bits(d) << "\n";
+                }
+            for (auto *x : qs)
+                si->freeState(x);
+        }
     std::cout << "sols total=" << sols.size() << " shown=" << std::min(sols.size(), maxSols) << "\n";
 
     unsigned long nvalid = 0;
@@ -548,7 +653,15 @@ static int runOnce(const Config &c)
         auto top = pdef->getSolutionPath();
         std::cout << "L status=" << vp::statusName(st) << " bool=" << (st ? 1 : 0) << " added="
                   << (pdef->getSolutionCount() > before ? 1 : 0) << "\n";
-        std::cout << "L " << peek->dumpTree() << "\n";
+        if (peek)
+            std::cout << "L " << peek->dumpTree() << "\n";
+        else
+        {
+            std::cout << "L " << peekC->dumpTree(true) << "\n";
+            std::cout << "L " << peekC->dumpTree(false) << "\n";
+            std::cout << "L misc ngoal=" << planner->getPlannerInputStates().getSampledGoalsCount()
+                      << " starttree=" << (peekC->startTreeFlag() ? 1 : 0) << "\n";
+        }
         if (top)
         {
             auto *pg = dynamic_cast<og::PathGeometric *>(top.get());
